@@ -285,7 +285,11 @@ def _run_phase(case, env, obj, out, dig):
                 if rows is not None:
                     out['viol'].append(viol('run-for-rejected-word', 'pda_simulate_word', {'word': w, 'run': rows}))
                 dig.append(None)
-            elif lib_acc is True:
+            elif lib_acc is True or rpda.closure_sizes(snap0, w, case.get('limit', 1000))[1]:
+                # a witness is demanded when the library itself accepts, and also when every exact closure fits under
+                # the limit (then acceptance is complete by C09, so "accepted" is not a matter of the library's opinion)
+                if lib_acc is not True:
+                    out['probes']['witness_demanded_although_library_rejects'] = 1
                 problems = check_pda_run(snap0, rows, w) if isinstance(rows, list) else ['returned %r for a word pda_accepts_word accepts' % (rows,)]
                 if problems:
                     out['viol'].append(viol('invalid-run', 'pda_simulate_word', {'word': w, 'run': rows, 'problems': problems[:2]}))
